@@ -8,7 +8,8 @@
     [rank_of], provided the obligation [func_edges_ok] holds of the inventory. *)
 
 From Coq Require Import String List NArith Bool Arith Lia.
-From Nexus Require Import Conc.SkelTypes Conc.Shutdown Conc.Skeleton Conc.Ranked Conc.RankedProofs.
+From Nexus Require Import Conc.SkelTypes Conc.Shutdown Conc.Skeleton Conc.Ranked Conc.RankedProofs
+  Conc.SkelObligationsC07 gen.GenSkeleton.
 Import ListNotations.
 
 Definition counts_as_edge (k : gkind) (f : func) (o : op) : bool :=
@@ -66,3 +67,59 @@ Proof.
 Qed.
 
 End Network.
+
+(** ** Instantiated for the regenerated inventory *)
+
+Lemma gen_edges_ok : forallb func_edges_ok gen_funcs = true.
+Proof.
+  pose proof wait_graph_ranked_holds as Hw. unfold Skeleton.wait_graph_ranked in Hw.
+  repeat (apply andb_true_iff in Hw as [Hw _]). exact Hw.
+Qed.
+
+Theorem router_workers_progress :
+  forall (P : Type) (P_eqb : P -> P -> bool),
+    (forall a b, P_eqb a b = true <-> a = b) ->
+  forall (H : Type) (kind_of : P -> gkind) (script : P -> H -> list (action P H)),
+    drawn_from P H kind_of script gen_funcs ->
+  forall s, @reach P P_eqb H script s ->
+    ((exists p, @st P H s p <> @Idle P H) -> exists s', @istep P P_eqb H script s s') /\
+    (forall n s', isteps P P_eqb H script n s s' ->
+        (forall s'', ~ @istep P P_eqb H script s' s'') ->
+        RankedProofs.quiescent P H s' /\ forall p q, ~ @pending_call P H s' p q).
+Proof.
+  intros P P_eqb Hspec H kind_of script Hd s Hr.
+  pose proof (skeleton_network_ranked P H kind_of script gen_funcs gen_edges_ok Hd) as Hrk.
+  destruct (ranked_progress P P_eqb Hspec H (fun p => rank_of (kind_of p)) script Hrk s Hr)
+    as (H1 & _ & _ & H4).
+  split; auto.
+Qed.
+
+(** A small network whose calls are in today's inventory: processes 0, 1 are
+    session handlers, 2 the realm goroutine, 3 the dealer. *)
+Definition ex_kind (p : nat) : gkind :=
+  match p with 0 | 1 => KSessHandler | 2 => KRealm | _ => KDealer end.
+
+Definition ex_script (p : nat) (h : nat) : list (action nat nat) :=
+  match p with
+  | 0 | 1 => [ACall nat nat 3 0 true; ALocal nat nat; ACall nat nat 2 0 true]   (* a call, then leaving *)
+  | 2 => [ACall nat nat 3 1 true; ALocal nat nat]                               (* onLeave: dealer.removeSession *)
+  | _ => [ALocal nat nat]
+  end.
+
+Definition example_network_drawn : Prop := drawn_from nat nat ex_kind ex_script gen_funcs.
+
+Lemma example_network_drawn_holds : example_network_drawn.
+Proof.
+  assert (He : existsb (fun e => gkind_eqb (fst e) KSessHandler && gkind_eqb (snd e) KDealer) (wait_edges gen_funcs) = true
+            /\ existsb (fun e => gkind_eqb (fst e) KSessHandler && gkind_eqb (snd e) KRealm) (wait_edges gen_funcs) = true
+            /\ existsb (fun e => gkind_eqb (fst e) KRealm && gkind_eqb (snd e) KDealer) (wait_edges gen_funcs) = true)
+    by (vm_compute; repeat split; reflexivity).
+  destruct He as (E1 & E2 & E3).
+  assert (Hin : forall a b, existsb (fun e => gkind_eqb (fst e) a && gkind_eqb (snd e) b) (wait_edges gen_funcs) = true ->
+                 In (a, b) (wait_edges gen_funcs)).
+  { intros a b Hx. apply existsb_exists in Hx as ([x y] & Hxy & Hb). simpl in Hb.
+    apply andb_true_iff in Hb as [Ha Hb]. apply gkind_eqb_eq in Ha, Hb. subst. exact Hxy. }
+  intros p h q h' b Hc. unfold ex_script in Hc.
+  destruct p as [|[|[|p]]]; simpl in Hc;
+    repeat (destruct Hc as [Hc|Hc]; [try discriminate; inversion Hc; subst; apply Hin; simpl; assumption|]); try destruct Hc.
+Qed.
